@@ -133,6 +133,13 @@ def run(F, chk):
                         for (c, truth, D) in guards.known(cfg, E, blk.i):
                             if truth is True and 'has_timestamp' in show(c):
                                 ok = True
+            if not ok:
+                # `self.standard_header.has_timestamp().then_some(self.timestamp_dms)`
+                EFt = ExprBuilder(cfg, fold_named=True)
+                for blk in b.calls():
+                    if re.search(r'(bool>?|bool)::(then_some|then)$', blk.term.callee.path) and len(blk.term.args) == 2:
+                        if 'has_timestamp' in show(EFt.operand(blk.term.args[0])) and ('timestamp_dms' in show(EFt.operand(blk.term.args[1])) or (blk.term.args[1].ty or '').startswith('{closure@')):
+                            ok = True
             if ok:
                 W1.ok(sample={'timestamp': 'Some(timestamp_dms) only under standard_header.has_timestamp()'})
             else:
